@@ -40,6 +40,10 @@ func runC11(c *Ctx) {
 	runPushBurst(c)
 	runPushBurstHeavy(c)
 	runSubUnsubscribeRace(c)
+	// calls of several goroutines sharing one socket do not disturb one another
+	runReqRecvParkedBeforeScheduled(c, true)
+	runReqRecvParkedBeforeScheduled(c, false)
+	runConcurrentDeadlines(c)
 	c.Rep.Rule = "concurrent API stress (10 goroutines per pair of connected sockets issuing Send, Recv, option get/set on sockets, contexts, dialers, listeners and pipes, OpenContext, Dial, Listen, pipe / context / socket Close) under the Go race detector for 16 pattern pairs x transports; class = (pattern, transport) completed, and one class per distinct racing field"
 	self, _ := os.Executable()
 	bin := filepath.Join(filepath.Dir(self), "racer")
